@@ -247,13 +247,14 @@ PROPS["C18"] = dict(
          "short/long/both keys, long keys of 36..46 characters around the same-line threshold of 40, descriptions of 1..60 words "
          "each carrying a unique marker word, print-default on/off/unset, checks, constraints) x usage settings (hfUsageHidden, "
          "hfUsageDeprecated, --print-hidden, --print-deprecated, --help-short, --help-long given before -h/--help, line length "
-         "60..239, always hfUsageCont) and single-argument help --help-arg=<key> / --help-arg-full=<key> for defined short and "
+         "60..239, always hfUsageCont; in a third of the cases some arguments live in a sub-group handler whose own usage is requested "
+         "with '-G -h' after the display settings) and single-argument help --help-arg=<key> / --help-arg-full=<key> for defined short and "
          "long keys and for undefined ones. Oracle: marker of an argument occurs exactly once iff the model's visibility predicate "
          "holds, under the right caption, in an entry whose key line shows exactly its keys; 'Default value:', 'Check:', "
          "'Constraint:', '[hidden]', '[deprecated]', '[replaced by' present iff configured; single-argument help shows only that "
          "argument's marker or reports 'is unknown'. Layout is not compared. Non-trivial = >= 1 invisible and >= 2 visible "
          "arguments and a non-default usage setting, or a single-argument help; distinct by case hash.",
-    require_classes=dict(all=["usage.full", "usage.help_arg", "usage.help_arg_unknown", "usage.print_hidden", "usage.print_deprecated",
+    require_classes=dict(all=["usage.full", "usage.sub_group", "usage.help_arg", "usage.help_arg_unknown", "usage.print_hidden", "usage.print_deprecated",
                               "usage.short_only", "usage.long_only", "usage.line_length_set", "usage.long_key_own_line"]),
     assumptions=["--print-hidden / --print-deprecated are not combined with hfUsageHidden / hfUsageDeprecated (the argument is a flag that toggles the current setting)",
                  "description words do not start with '-' and are not the token 'nn' (TextBlock gives them a layout meaning)",
